@@ -109,48 +109,6 @@ func VerifPqBuffer() {
 		verifAssert(b.Avail() == pay*npages-total, "Avail is the capacity minus the bytes held "+when)
 	}
 
-	event := func(k int) {
-		sz := sizes[verifChoose(nsz)]
-		verifLogU64("event size", uint64(sz))
-		data := make([]byte, sz)
-		verifSymBytes("data", data)
-		// the active header was reserved before: it ends the last reference page
-		hp := len(ref) - 1
-		hoff := len(ref[hp].data) - szEventHeader
-		cut := sz
-		if sz > 1 && verifChoose(2) == 1 {
-			cut = sz / 2
-		}
-		hdrOff := b.eventHdrOffset
-		verifAssert(hdrOff == szEventPageHeader+hoff, "the active header is at the reference position")
-		verifAssert(hdrOff+szEventHeader <= ps, "the active header is not split across pages")
-		b.Append(data[:cut])
-		if cut < sz {
-			b.Append(data[cut:])
-		}
-		refAppend(data)
-		hdr := b.ActiveEventHdr()
-		verifAssert(len(hdr) == szEventHeader, "ActiveEventHdr has the reserved length")
-		var hb [szEventHeader]byte
-		verifSymBytes("hdr", hb[:])
-		copy(hdr, hb[:])
-		copy(ref[hp].data[hoff:], hb[:])
-		b.CommitEvent(id)
-		r := ref[hp]
-		if r.first == 0 {
-			r.first = szEventPageHeader + hoff
-			r.fid = id
-		}
-		r.lid = id
-		for q := hp; q < len(ref); q++ {
-			ref[q].committed = len(ref[q].data)
-		}
-		id++
-		verifAssert(b.ReserveHdr(szEventHeader) != nil, "ReserveHdr of an event header succeeds")
-		refReserve()
-		check("after an event")
-	}
-
 	pagesCheck := func() (start, end *page) {
 		start, end, n := b.Pages()
 		cnt := uint(0)
@@ -172,6 +130,52 @@ func VerifPqBuffer() {
 		}
 		verifAssert(n == cnt, "Pages reports the number of pages in the returned range")
 		return start, end
+	}
+
+	event := func(k int) {
+		sz := sizes[verifChoose(nsz)]
+		verifLogU64("event size", uint64(sz))
+		data := make([]byte, sz)
+		verifSymBytes("data", data)
+		// the active header was reserved before: it ends the last reference page
+		hp := len(ref) - 1
+		hoff := len(ref[hp].data) - szEventHeader
+		cut := sz
+		if sz > 1 && verifChoose(2) == 1 {
+			cut = sz / 2
+		}
+		hdrOff := b.eventHdrOffset
+		verifAssert(hdrOff == szEventPageHeader+hoff, "the active header is at the reference position")
+		verifAssert(hdrOff+szEventHeader <= ps, "the active header is not split across pages")
+		b.Append(data[:cut])
+		refAppend(data[:cut])
+		if cut < sz {
+			// flush range asked for in the middle of an event (the automatic flush inside Write):
+			// pages holding only bytes of the unfinished event are not part of it
+			pagesCheck()
+			b.Append(data[cut:])
+			refAppend(data[cut:])
+		}
+		hdr := b.ActiveEventHdr()
+		verifAssert(len(hdr) == szEventHeader, "ActiveEventHdr has the reserved length")
+		var hb [szEventHeader]byte
+		verifSymBytes("hdr", hb[:])
+		copy(hdr, hb[:])
+		copy(ref[hp].data[hoff:], hb[:])
+		b.CommitEvent(id)
+		r := ref[hp]
+		if r.first == 0 {
+			r.first = szEventPageHeader + hoff
+			r.fid = id
+		}
+		r.lid = id
+		for q := hp; q < len(ref); q++ {
+			ref[q].committed = len(ref[q].data)
+		}
+		id++
+		verifAssert(b.ReserveHdr(szEventHeader) != nil, "ReserveHdr of an event header succeeds")
+		refReserve()
+		check("after an event")
 	}
 
 	verifAssert(b.ReserveHdr(szEventHeader) != nil, "ReserveHdr of an event header succeeds")
